@@ -500,8 +500,14 @@ func (in *instr) file(p *packages.Package, f *ast.File, name string) error {
 			if w {
 				wi = 1
 			}
+			svid := vid
+			if isSyncType(v.Type()) {
+				// a mutex, pool, once, ... is a place where tasks meet, not data they race on:
+				// a scheduling point, never an access for the race rule (negative id)
+				svid = -vid
+			}
 			edits = append(edits, edit{start: off(ls.Pos()), end: off(ls.Pos()),
-				text: fmt.Sprintf("zzsimrt.S(%d, %d, %d); ", sid, vid, wi), prio: 2})
+				text: fmt.Sprintf("zzsimrt.S(%d, %d, %d); ", sid, svid, wi), prio: 2})
 			in.out.SPoints++
 			usedRT = true
 			if ds, isDefer := ls.(*ast.DeferStmt); isDefer {
@@ -510,7 +516,7 @@ func (in *instr) file(p *packages.Package, f *ast.File, name string) error {
 				// out) - the moment at which what the call released may be taken by another task
 				sid2 := in.site("svar", p, funcName()+".deferred", ds.Pos(), in.out.Vars[vid-1].Name)
 				edits = append(edits, edit{start: off(ls.Pos()), end: off(ls.Pos()),
-					text: fmt.Sprintf("defer zzsimrt.S(%d, %d, 1); ", sid2, vid), prio: 1})
+					text: fmt.Sprintf("defer zzsimrt.S(%d, %d, 1); ", sid2, svid), prio: 1})
 				in.out.SPoints++
 			}
 		}
@@ -638,6 +644,20 @@ func (in *instr) opaqueShared(v *types.Var) bool {
 		}
 	}
 	return false
+}
+
+// isSyncType: sync.Mutex, RWMutex, Once, WaitGroup, Pool, Map, Cond and sync/atomic types
+// (also behind a pointer).
+func isSyncType(t types.Type) bool {
+	if pt, ok := t.(*types.Pointer); ok {
+		t = pt.Elem()
+	}
+	nt, ok := t.(*types.Named)
+	if !ok || nt.Obj().Pkg() == nil {
+		return false
+	}
+	p := nt.Obj().Pkg().Path()
+	return p == "sync" || p == "sync/atomic"
 }
 
 // syncKind classifies a call to a method of sync.Mutex, sync.RWMutex, sync.Locker
